@@ -38,7 +38,7 @@ ASSUMPTIONS = [
 ]
 TECHNIQUE = "reference-model + relational (merged-category twin run) + intrinsic runtime monitors"
 DESIGN_REF = "DESIGN.md 4 C04"
-WEIGHTS = ["none", "frac", "zeros", "float"]
+WEIGHTS = ["none", "frac", "zeros", "float", "tiny"]
 MSETS = [(), ("mean", "stddev"), ("sum",), ("valid_counts", "mean"), ("median", "sum"), ("sq_weights",)]
 REQUIRED_REACH = [
     "a_count", "b_intersection", "c_merge", "d_nonadditive_nan", "e_diff_base_nan",
